@@ -1278,11 +1278,14 @@ fn session_oracle(peers: &[(Mode, St)], avail: &[BTreeMap<u64, Vec<N>>], raw: &R
                     fails.push(format!("server {s} actor {a}: Full {lo}-{hi} is larger than one chunk_range(_, {CHUNK}) block"));
                 }
                 let seen = full_seen.entry(*a).or_default();
+                let mut dup = None;
                 for x in *lo..=(*hi).min(ORACLE_MAX) {
-                    if !seen.insert(x) {
-                        fails.push(format!("actor {a}: version {x} requested twice in one session (second time from server {s}, Full {lo}-{hi})"));
-                        break;
+                    if !seen.insert(x) && dup.is_none() {
+                        dup = Some(x);
                     }
+                }
+                if let Some(x) = dup {
+                    fails.push(format!("actor {a}: version {x} requested twice in one session (second time from server {s}, Full {lo}-{hi})"));
                 }
             }
             N::Part(v, rs) => {
